@@ -71,6 +71,18 @@ prop(
     thorough=dict(checks=6000, shards=16),
 )
 
+prop(
+    "C09",
+    title="Skip-schemas mode expands all but schemas and keeps their $refs valid",
+    technique="property-based testing (rapid) with a model-based oracle: parallel walk of input and SkipSchemas output comparing the designated position of every schema $ref (reference model), bisimulation, and a differential two-step vs direct full expansion",
+    rule=GRAPH_RULE + "Non-trivial = some parameter/response/path item imported from another document carries a schema $ref whose text had to be rewritten; distinct by hash of the canonical JSON of all documents",
+    design_ref="DESIGN.md §4 C09",
+    level_text="exploration: random multi-document graphs expanded with SkipSchemas; checked: definitions equal the merely re-encoded input, no $ref left at parameter/response/path-item positions of well-founded elements, every schema $ref still a $ref designating exactly the same position as before (fragment-only into the root), whole result bisimilar to the input, and full expansion of the result agrees with direct full expansion (error-ness, bisimilarity, bytes when acyclic)",
+    level_note="positions are compared after RFC 3986 resolution against the root URL; the codec's canonicalisation of $ref strings (e.g. %61 -> a) is not counted as touching definitions",
+    quick=dict(checks=500, shards=4),
+    thorough=dict(checks=4000, shards=16),
+)
+
 
 def manifest():
     allids = []
